@@ -2,6 +2,7 @@ import LdkModel.Driver.Util
 import LdkModel.Model.TlvFrame
 import LdkModel.Generated.TlvSchemas
 import LdkModel.Generated.SerPrims
+import LdkModel.Model.ChanForget
 /-! C12 model driver (frame level: version prefix + TLV stream rules over the generated (type, kind) lists).  ops:
     frame <Block> <hex>      `frameDecode` of the TLV stream part of an object (no length prefix): `ok` / `err <DecodeError>`
                              — the verdict predicted from the (type, kind) list alone (payloads opaque)
@@ -14,9 +15,74 @@ import LdkModel.Generated.SerPrims
     colllen_rd <hex>         `SerPrims.collLenDecode`: `ok <n> <rest byte count>` / `err …`
     bigsize <n>              `SerPrims.bigSizeEncode n` (TRANSLATED BigSize writer): hex
     bigsize_rd <hex>         `SerPrims.bigSizeDecode`: `ok <n> <rest byte count>` / `err …`
-    hzd_rd <len> <hex>       `SerPrims.hzdDecode len` (TRANSLATED HighZeroBytesDroppedBigSize reader, whole input = its reader) -/
+    hzd_rd <len> <hex>       `SerPrims.hzdDecode len` (TRANSLATED HighZeroBytesDroppedBigSize reader, whole input = its reader)
+    forget_disk <chan>       `ChanForget.readChan (writeChan c)` over the TRANSLATED forget table (Generated/ChanForget.lean): `<chan>` / `err`
+    forget_mem <chan>        `ChanForget.forget c` (remove_uncommitted_htlcs_and_mark_paused): `<chan>`
+    forget_retx <chan>       `recvAll (readChan (writeChan c)) (retransmit c)`: `ok` (and the state is restored) / `refused` / `differs`
+                             <chan> = <outbound 0|1> <next_holder_htlc_id> <next_counterparty_htlc_id> <fee rate:State|-> <holding-cell fee n|->
+                                      <inbound id:State,…|-> <outbound id:State,…|-> <holding-cell entries> -/
 namespace Ldk.Driver
 open Ldk.Codec Ldk.TlvFrame Ldk.TlvFrame.Gen
+
+
+namespace ChanForgetIO
+open Ldk.ChanForget
+
+def inName : InSt → String
+  | .remoteAnnounced => "RemoteAnnounced" | .awaitingRemoteRevokeToAnnounce => "AwaitingRemoteRevokeToAnnounce"
+  | .awaitingAnnouncedRemoteRevoke => "AwaitingAnnouncedRemoteRevoke" | .committed => "Committed" | .localRemoved => "LocalRemoved"
+def outName : OutSt → String
+  | .localAnnounced => "LocalAnnounced" | .committed => "Committed" | .remoteRemoved => "RemoteRemoved"
+  | .awaitingRemoteRevokeToRemove => "AwaitingRemoteRevokeToRemove" | .awaitingRemovedRemoteRevoke => "AwaitingRemovedRemoteRevoke"
+def feeName : FeeSt → String
+  | .remoteAnnounced => "RemoteAnnounced" | .awaitingRemoteRevokeToAnnounce => "AwaitingRemoteRevokeToAnnounce" | .outbound => "Outbound"
+def allIn : List InSt := [.remoteAnnounced, .awaitingRemoteRevokeToAnnounce, .awaitingAnnouncedRemoteRevoke, .committed, .localRemoved]
+def allOut : List OutSt := [.localAnnounced, .committed, .remoteRemoved, .awaitingRemoteRevokeToRemove, .awaitingRemovedRemoteRevoke]
+def allFee : List FeeSt := [.remoteAnnounced, .awaitingRemoteRevokeToAnnounce, .outbound]
+
+def parsePairs {α : Type} (names : List (String × α)) (s : String) : Option (List (Nat × α)) :=
+  if s == "-" then some [] else
+  (s.splitOn ",").foldr (fun t acc =>
+    match acc, t.splitOn ":" with
+    | some l, [i, n] => match names.find? (·.1 == n) with
+      | some (_, v) => some ((nat! i, v) :: l)
+      | none => none
+    | _, _ => none) (some [])
+
+def parseChan (ws : List String) : Option Chan :=
+  match ws with
+  | [ob, nh, ncp, fee, hfee, inb, outb, hold] =>
+    match parsePairs (allIn.map fun v => (inName v, v)) inb, parsePairs (allOut.map fun v => (outName v, v)) outb,
+          parsePairs (allFee.map fun v => (feeName v, v)) fee with
+    | some i, some o, some f =>
+      some { outbound := ob == "1", inb := i, outb := o, fee := f.head?, holdFee := if hfee == "-" then none else some (nat! hfee),
+             hold := List.replicate (nat! hold) 0, nextHolder := nat! nh, nextCp := nat! ncp }
+    | _, _, _ => none
+  | _ => none
+
+def showPairs {α : Type} (nm : α → String) (l : List (Nat × α)) : String :=
+  if l.isEmpty then "-" else ",".intercalate (l.map fun h => s!"{h.1}:{nm h.2}")
+
+def showChan (c : Chan) : String :=
+  let fee := match c.fee with | some (r, s) => s!"{r}:{feeName s}" | none => "-"
+  let hfee := match c.holdFee with | some r => s!"{r}" | none => "-"
+  s!"{if c.outbound then 1 else 0} {c.nextHolder} {c.nextCp} {fee} {hfee} {showPairs inName c.inb} {showPairs outName c.outb} {c.hold.length}"
+
+end ChanForgetIO
+
+open Ldk.ChanForget in
+def forgetOp (kind : String) (ws : List String) : String :=
+  match ChanForgetIO.parseChan ws with
+  | none => "bad-chan"
+  | some c =>
+    if kind == "forget_mem" then ChanForgetIO.showChan (forget c)
+    else match readChan c.outbound (writeChan c) with
+      | none => "err"
+      | some c' =>
+        if kind == "forget_disk" then ChanForgetIO.showChan c'
+        else match recvAll c' (retransmit c) with
+          | none => "refused"
+          | some c'' => if c'' == { c with outb := c.outb.map (fun h => (h.1, Gen.mOutReset h.2)) } then "ok" else "differs"
 
 def findBlock (n : String) : Option FrameSchema := generatedTlvSchemas.find? (·.name == n)
 
@@ -70,6 +136,9 @@ def c12 : Drv where
       match SerPrims.hzdDecode (nat! len) (unhex h) with
       | .ok (n, rest) => ((), s!"ok {n} {rest.length}")
       | .error e => ((), "err " ++ e.name)
+    | "forget_disk" :: rest => ((), forgetOp "forget_disk" rest)
+    | "forget_mem" :: rest => ((), forgetOp "forget_mem" rest)
+    | "forget_retx" :: rest => ((), forgetOp "forget_retx" rest)
     | _ => ((), "bad-op")
 
 end Ldk.Driver
